@@ -596,6 +596,8 @@ def compare(I, op, a, b):
                 r = a is b
         elif isinstance(a, (Obj, ClassVal)) or isinstance(b, (Obj, ClassVal)):
             r = a is b
+        elif type(a).__name__ == 'MatchVal' or type(b).__name__ == 'MatchVal':
+            r = a is b          # match objects of the environment: identity of the engine value
         elif isinstance(a, Unknown) or isinstance(b, Unknown):
             r = Sym(BOOL, z3.Bool(I.p.fresh_name('unkis')))
             I.p.taint('is on unknown')
